@@ -7,6 +7,7 @@ Results are cached under .cache/corpus keyed by (tree hash of /repo, generator s
 import hashlib
 import json
 import os
+import shutil
 import re
 import sys
 
@@ -404,8 +405,9 @@ def corpus(seed, ndefs, nvalues=3, tag="main", log=vlib.log, use_cache=True, ext
     cpath = os.path.join(cdir, key + ".json")
     envname = "corpus_env_%s" % tag
     res = None
-    if use_cache and os.path.exists(cpath):
+    if use_cache and os.path.exists(cpath) and os.path.exists(cpath[:-5] + ".exe"):
         res = json.load(open(cpath))
+        res["exe"] = cpath[:-5] + ".exe"
         res["queries"] = [totuple(t) for t in res["queries"]]
         res["q"] = {int(k): v for k, v in res["q"].items()}
         res["v"] = {tuple(int(x) for x in k.split(",")): v for k, v in res["v"].items()}
@@ -427,10 +429,23 @@ def corpus(seed, ndefs, nvalues=3, tag="main", log=vlib.log, use_cache=True, ext
             if vs:
                 values[i] = vs
         exe, defs, queries, values, rejected = build("corpus_" + tag, defs, queries, values, log=log)
+        # the binary belongs to this cache entry: a later build (another tree, another seed) replaces the one in the
+        # cargo target directory, and a cache hit must never run a binary compiled from a different tree
+        kept = cpath[:-5] + ".exe"
+        shutil.copy2(exe, kept)
+        exe = kept
         q, v, _ = run_binary(exe)
         res = dict(defs=defs, queries=queries, values=values, q=q, v=v, rejected=rejected, exe=exe)
         json.dump(dict(defs=defs, queries=queries, values={str(k): x for k, x in values.items()}, q={str(k): x for k, x in q.items()},
                        v={"%d,%d" % k: x for k, x in v.items()}, rejected=rejected, exe=exe), open(cpath, "w"), default=str)
+        old = sorted((f for f in os.listdir(os.path.dirname(cpath)) if f.endswith(".json")),
+                     key=lambda f: os.path.getmtime(os.path.join(os.path.dirname(cpath), f)))
+        for f in old[:-10]:     # keep the ten newest entries
+            for ext in (".json", ".exe"):
+                try:
+                    os.remove(os.path.join(os.path.dirname(cpath), f[:-5] + ext))
+                except OSError:
+                    pass
     # the model: environment compiled once, queries evaluated in parallel shards
     okb, outb = vlib.coq_make(["theories/Model/GenExport.vo", "theories/Tools/Digest.vo", "theories/Proofs/Gen_decl_proofs.vo"])
     if not okb:
